@@ -1,5 +1,5 @@
 (* C05 — results do not depend on worker count or completion order. *)
-From Verif Require Import Prelude Schedule ScheduleP ScheduleRed ScheduleRedP PairCount RoundRobin RoundRobinP Cwd CwdP.
+From Verif Require Import Prelude Schedule ScheduleP ScheduleRed ScheduleRedP PairCount RoundRobin RoundRobinP Cwd CwdP StartMethod StartMethodP.
 From Verif Require MemoHistory MemoHistoryP.
 From Coq Require Import Permutation.
 Open Scope nat_scope.
@@ -129,6 +129,24 @@ Theorem C05_persistent_pool_after_chdir_refuted :
     run (step_pool fsys) s ops <> spec fsys (cwd s) ops /\ run (step_fresh fsys) s ops = spec fsys (cwd s) ops.
 Proof. exact pool_after_chdir_refuted. Qed.
 Print Assumptions C05_persistent_pool_after_chdir_refuted.
+(* ---------------- what a worker process knows: fork, spawn, fork server ---------------- *)
+(* the configuration reaches the workers pickled by value: every worker count under every start method sees the configured field *)
+Theorem C05_by_value_worker_count_free : forall (C : Type) (w w' : nat) (m m' : start) (c : C),
+  seen_by_value w m c = seen_by_value w' m' c.
+Proof. exact @by_value_worker_count_free. Qed.
+Print Assumptions C05_by_value_worker_count_free.
+(* a field pickled as a key into a process-local registry is found by forked workers ... *)
+Theorem C05_by_key_ok_under_fork : forall (C : Type) (default : C) (w : nat) (parent : registry) (key : nat) (c : C),
+  parent key = Some c -> seen_by_key default w Fork parent key c = c.
+Proof. exact @by_key_ok_under_fork. Qed.
+Print Assumptions C05_by_key_ok_under_fork.
+(* ... and is the default in every worker that did not inherit the parent's memory: the result depends on the worker count *)
+Theorem C05_by_key_worker_count_refuted :
+  exists (parent : @registry nat) key c,
+    parent key = Some c /\ seen_by_key 0 1 Spawn parent key c <> seen_by_key 0 2 Spawn parent key c
+    /\ seen_by_key 0 1 Fork parent key c = seen_by_key 0 2 Fork parent key c.
+Proof. exact by_key_worker_count_refuted. Qed.
+Print Assumptions C05_by_key_worker_count_refuted.
 Example C05_concrete :
   let r01 := {| id1 := 0; id2 := 1; sw1 := [2%Q]; sw2 := [3%Q]; cnts := [[5%Q]] |} in
   let r00 := {| id1 := 0; id2 := 0; sw1 := [2%Q]; sw2 := [2%Q]; cnts := [[4%Q]] |} in
